@@ -36,4 +36,65 @@ theorem norm_xy_exec_affine_maps (pts : List (Rat × Rat)) (ds : List Rat) (r : 
   simp only [Prod.mk.injEq]
   constructor <;> ring
 
+/-! ## pairwise summation (8 ≤ n ≤ 128 points) -/
+
+theorem sum_zipWith_add : ∀ (r c : List Rat), r.length = c.length →
+    (List.zipWith (fun a b => id (a + b)) r c).sum = r.sum + c.sum
+  | [], [], _ => by simp
+  | a :: r, b :: c, h => by
+    have h' : r.length = c.length := by simpa using h
+    have ih := sum_zipWith_add r c h'
+    simp only [id] at ih
+    simp only [List.zipWith_cons_cons, List.sum_cons, id, ih]
+    ring
+  | [], _ :: _, h => by simp at h
+  | _ :: _, [], h => by simp at h
+
+theorem accsK_sum (k : Nat) : ∀ (r rest : List Rat), r.length = 8 → 8 * k ≤ rest.length →
+    (accsK id k r rest).1.sum + (accsK id k r rest).2.sum = r.sum + rest.sum ∧ (accsK id k r rest).1.length = 8 := by
+  induction k with
+  | zero => intro r rest hr _; exact ⟨rfl, hr⟩
+  | succ k ih =>
+    intro r rest hr hlen
+    have htake : (rest.take 8).length = 8 := by rw [List.length_take]; omega
+    have hz : (List.zipWith (fun a b => id (a + b)) r (rest.take 8)).length = 8 := by
+      rw [List.length_zipWith, hr, htake]; rfl
+    have hdrop : 8 * k ≤ (rest.drop 8).length := by rw [List.length_drop]; omega
+    obtain ⟨h1, h2⟩ := ih _ (rest.drop 8) hz hdrop
+    refine ⟨?_, h2⟩
+    show (accsK id k _ (rest.drop 8)).1.sum + (accsK id k _ (rest.drop 8)).2.sum = _
+    rw [h1, sum_zipWith_add r (rest.take 8) (by rw [hr, htake])]
+    have := List.sum_take_add_sum_drop rest 8
+    linarith
+
+theorem sum_eight (r : List Rat) (h : r.length = 8) :
+    r.sum = ((r.getD 0 0 + r.getD 1 0) + (r.getD 2 0 + r.getD 3 0)) + ((r.getD 4 0 + r.getD 5 0) + (r.getD 6 0 + r.getD 7 0)) := by
+  match r, h with
+  | [a, b, c, d, e, f, g, i], _ => simp; ring
+
+/-- **In exact arithmetic numpy's pairwise scheme is the plain sum** (any length). -/
+theorem pairSum_id (xs : List Rat) : pairSum id xs = xs.sum := by
+  unfold pairSum
+  split
+  · unfold seqSum; rw [foldl_add_eq]; simp
+  · rename_i hlen
+    have hl : 8 ≤ xs.length := by omega
+    have htake : (xs.take 8).length = 8 := by rw [List.length_take]; omega
+    have hdrop : 8 * (xs.length / 8 - 1) ≤ (xs.drop 8).length := by rw [List.length_drop]; omega
+    obtain ⟨h1, h2⟩ := accsK_sum (xs.length / 8 - 1) (xs.take 8) (xs.drop 8) htake hdrop
+    simp only [id]
+    have hf : ∀ (l : List Rat) (a : Rat), l.foldl (fun acc x => acc + x) a = a + l.sum := by
+      intro l a; have := foldl_add_eq l a; simpa [id] using this
+    rw [hf, ← sum_eight _ h2, h1, List.sum_take_add_sum_drop]
+
+/-- Hence the many-point model in exact arithmetic is the field-generic `normXYK` too. -/
+theorem norm_xy_pairwise_is_generic (pts : List (Rat × Rat)) (ds : List Rat) (r : Rat) :
+    normXyP id pts ds r = normXyF id pts ds r := by
+  unfold normXyP normXyF meanP meanF
+  rw [pairSum_id]
+  have : seqSum id ds = ds.sum := by unfold seqSum; rw [foldl_add_eq]; simp
+  rw [this]
+
+example : pairSum id [1, 2, 3, 4, 5, 6, 7, 8, 9, 10, 11] = 66 := by decide +kernel
+
 end OdcGeo.C20
